@@ -7,7 +7,6 @@ import (
 	"go/types"
 	"os"
 	"sort"
-	"strings"
 	"time"
 
 	"golang.org/x/tools/go/packages"
@@ -147,7 +146,7 @@ func main() {
 		}
 		selected[name] = true
 		ct := cf.ByFunc[name]
-		if ct == nil || ct.Kind != "func" || ct.Flags["trusted"] {
+		if ct == nil || ct.Kind != "func" || ct.Flags["trusted"] || ct.Flags["inline"] {
 			continue
 		}
 		fn := funcs[name]
@@ -170,12 +169,10 @@ func main() {
 			sort.Strings(used)
 			for _, u := range used {
 				if !selected[u] {
-					if strings.HasPrefix(u, "field.") {
-						// interface contract: every implementation must be verified
-						for _, c2 := range cf.Order {
-							if c2.Kind == "func" && strings.HasSuffix(c2.Func, ")."+u[len("field."):]) && c2.Flags["implements-field"] {
-								queue = append(queue, c2.Func)
-							}
+					// interface contract: every implementation must be verified
+					for _, c2 := range cf.Order {
+						if c2.Kind == "func" && c2.Flags["implements="+u] {
+							queue = append(queue, c2.Func)
 						}
 					}
 					queue = append(queue, u)
